@@ -249,11 +249,11 @@ Proof.
            ++ apply lvl_eqb_neq in E. exists l1, c1, p'. split; [reflexivity|]. split; [apply Hin'; right; auto | exact Ht].
 Qed.
 
-Lemma retain_spec p m e n : wf n ->
-  wf (retain p m e n) /\ forall q x, In (q, x) (tsubs (retain p m e n)) <-> In (q, x) (tsubs n).
+Lemma retain_spec p m e ow n : wf n ->
+  wf (retain p m e ow n) /\ forall q x, In (q, x) (tsubs (retain p m e ow n)) <-> In (q, x) (tsubs n).
 Proof.
   intros Hwf. unfold retain. destruct e; [apply ret_remove_spec; exact Hwf|].
-  destruct (m_qos m =? 0); [|apply ret_insert_spec; exact Hwf].
+  destruct ((m_qos m =? 0) && negb ow); [|apply ret_insert_spec; exact Hwf].
   destruct (ret_remove_spec p n Hwf) as [H1 H2]. destruct (ret_insert_spec p m (ret_remove p n) H1) as [H3 H4].
   split; [exact H3|]. intros q x. rewrite H4. apply H2.
 Qed.
@@ -275,7 +275,7 @@ Qed.
 
 Lemma step_rel n m o : Rel n m -> Rel (step n o) (abs_step m o).
 Proof.
-  intros [Hwf Hs]. destruct o as [f s sp|f s|t mg e]; cbn [step abs_step].
+  intros [Hwf Hs]. destruct o as [f s sp|f s|t mg e ow]; cbn [step abs_step].
   - destruct (insert_spec (split f) s sp n Hwf) as [H1 H2]. split; [exact H1|].
     intros q s' sp'. rewrite H2. cbn [In]. rewrite filter_In. cbn [fst snd]. split.
     + intros [[-> E]|[Hin Hn]]; [inversion E; subst; left; reflexivity|]. right. split; [apply Hs; exact Hin|].
@@ -292,7 +292,7 @@ Proof.
     + intros [Hin Hn]. split; [apply Hs; exact Hin|].
       intros [-> E]. cbn [fst] in E. subst s'. apply negb_true_iff in Hn.
       assert (skey_eqb (split f, s) (split f, s) = true) by (apply skey_eqb_true; reflexivity). congruence.
-  - destruct (retain_spec (split t) mg e n Hwf) as [H1 H2]. split; [exact H1|].
+  - destruct (retain_spec (split t) mg e ow n Hwf) as [H1 H2]. split; [exact H1|].
     intros q s' sp'. rewrite H2. apply Hs.
 Qed.
 
